@@ -278,6 +278,18 @@ def run_each_state(spec, rec, lib):
 def run_classes(spec, rec, lib):
     """single-cause rejections carry the documented class"""
     rng = random.Random(spec["seed"])
+    # a document of the wrong type for the role it is presented for, declaring a specification version this process has never met,
+    # offered while standard output fails, as the first thing that happens to it: the rejection stays a rejection
+    for j in range(max(8, spec["count"] // 12)):
+        case = delegation.gen_case(rng, stratum="type_confusion", spec_version_prob=1.0)
+        tw = dict(case, stdout=hostile.MODES[j % len(hostile.MODES)])
+        m3, _f3, o3, _mm = delegation.evaluate(tw, lib)
+        rec.case("class|type-confusion-unseen-spec-version|%s" % tw["stdout"])
+        rec.count("failing_stdout_runs")
+        if o3.accepted and m3.v == models.REJECT:
+            rec.violation("fail-open/authentication.verify_delegation/stdout-fails/observed=return",
+                          "rejection (%s) of a wrongly typed document with a never-seen specification version turned into a normal return when standard output fails (%s)"
+                          % (m3.why, tw["stdout"]), tw)
     for i in range(spec["count"]):
         r = i % 3
         eng, fn = [(envelope, "verify_signable"), (rootchain, "verify_root"), (delegation, "verify_delegation")][r]
